@@ -340,6 +340,7 @@ class Interp:
             b = st.load(args[0]); st.ev(kind='FREE', loc=('blk', b.root[1])); return cont(st, Opaque('unit'))
         if n.endswith('process::abort') or n == 'abort': st.ev(kind='ABORT'); raise PathEnd('abort')
         if n.endswith('mem::forget'): return cont(st, Opaque('unit'))
+        if re.search(r'mem::(size_of|align_of|size_of_val|align_of_val)$', n): return cont(st, st.fresh('layout'))  # unknown property of the payload type
         if n == 'Result::map':
             r, fn = args
             if r.variant == 'Ok':
